@@ -1671,9 +1671,20 @@ def _abstract_registry(classes):
     return r
 
 
+def _record_fields(value):
+    """fields of the returned base_expr record: an evaluated namedtuple record, or the opaque constructor call"""
+    if isinstance(value, Obj) and isinstance(value.attrs.get("_fields"), tuple):
+        return {f: value.attrs[f] for f in value.attrs["_fields"]}
+    if isinstance(value, T) and value.op == "call":
+        return args_of(value)
+    return {}
+
+
 def _references(value, names):
     """calls X.expand_itmd(...) / X.tensor(...) on registered intermediates inside an evaluated definition"""
     out = []
+    if isinstance(value, Obj):
+        value = list(_record_fields(value).values())
     for t in subterms(value):
         if t.op == "mcall" and t.args[1] in ("expand_itmd", "tensor") and nm(t.args[0]) in names:
             out.append(t)
@@ -1723,8 +1734,7 @@ def r11d(ctx):
             # the defining expression of the level (first field of base_expr), wrappers of the index minimisation removed
             vals = []
             for o in rets:
-                v = o.value
-                a = args_of(v) if isinstance(v, T) and v.op == "call" else {}
+                a = _record_fields(o.value)
                 vals.append(a.get("expr", a.get(0)))
             exprs[level] = vals
         if residual or True not in exprs or False not in exprs:
